@@ -15,9 +15,10 @@
    Instances:
      sort_exact    := Ok ∘ stable insertion sort      (sort.Slice for <= 12 plans; and whenever
                                                        no two DIFFERENT plans have the same key)
-     sort_checked  := Ambiguous when > 12 plans and two different plans tie, else sort_exact
+     sort_checked  := Ambiguous when > 12 plans and two different plans tie, else sort_exact (no longer used)
+     sort_pdq      := Ok . Go's sort.Slice exactly (Cpumem/Pdqsort.v)
      get_cpu_plans     := get_cpu_plans_g sort_exact       (used by theorems and by other models)
-     get_cpu_plans_chk := get_cpu_plans_g sort_checked     (used by the correspondence check)
+     get_cpu_plans_chk := get_cpu_plans_g sort_pdq         (used by the correspondence check)
      numa_nodes info               distinct NUMA node ids of Capacity.NUMA (first-occurrence order)
      numa_visit_order info origin  the order GetCPUPlans visits them in (origin's nodes first, then by id)
      get_cpu_plans_det_g sortf info origin base maxfrag req fuel   = get_cpu_plans_g with that order
@@ -26,7 +27,7 @@
    [numa_nodes info]); since /repo 3d8e6c0 the code uses [numa_visit_order info origin].  A plan is (numa node id or "", cpu map).
 *)
 From Coq Require Import String Ascii List ZArith Bool.
-From Verif Require Import Base.GoInt Base.GoFloat Base.GoHeap Cpumem.Types.
+From Verif Require Import Base.GoInt Base.GoFloat Base.GoHeap Cpumem.Types Cpumem.Pdqsort.
 Import ListNotations.
 Local Open Scope Z_scope.
 
@@ -169,6 +170,10 @@ Definition numa_cpu_map (numa : smap string) (avail_cpumap : smap Z) (nid : stri
   map (fun kv => (fst kv, lookup 0 avail_cpumap (fst kv)))
       (filter (fun kv => String.eqb (snd kv) nid) numa).
 
+(* sort.Slice exactly (Go 1.23 pdqsort, Cpumem/Pdqsort.v): what the correspondence check uses *)
+Definition sort_pdq (l : list keyed) : outcome (list keyed) :=
+  Ok (sort_slice keyed (0, []) keyed_less l).
+
 Section WithSort.
 (* the final sort.Slice of getFullCPUPlans (unstable for more than 12 elements) *)
 Variable sortf : list keyed -> outcome (list keyed).
@@ -293,7 +298,7 @@ Definition get_cpu_plans_g (info : node_info) (origin : smap Z) (base maxfrag : 
 End WithSort.
 
 Definition get_cpu_plans := get_cpu_plans_g sort_exact.
-Definition get_cpu_plans_chk := get_cpu_plans_g sort_checked.
+Definition get_cpu_plans_chk := get_cpu_plans_g sort_pdq.
 Definition do_get_cpu_plans := do_get_cpu_plans_g sort_exact.
 Definition host_cpu_plans := host_cpu_plans_g sort_exact.
 Definition get_full_plans := get_full_plans_g sort_exact.
